@@ -197,11 +197,14 @@ class MutableMappingSchemaBuilder(
             The required properties, otherwise an empty set.
         """
         try:
-            required = self._root_node._active_strategies[0]._required
+            strategy = self._root_node._active_strategies[0]
+            required = strategy._required
         except (AttributeError, IndexError):
             return set()
         if required is None:
-            return set()
+            # Return the set of the strategy, not a temporary one,
+            # otherwise the names added to it would be lost.
+            required = strategy._required = set()
         return cast("set[str]", required)
 
     def check_property_names(self, *names: str) -> None:
